@@ -341,6 +341,13 @@ func genFact(g *gen.Gen) map[string]interface{} {
 	if g.Intn(3) == 0 {
 		f["tags"] = []interface{}{val(g) + "1", val(g) + "2"}
 	}
+	if g.Intn(4) == 0 {
+		// lists directly inside lists, with maps below them (a polygon's rings)
+		f["rings"] = []interface{}{
+			[]interface{}{map[string]interface{}{"lat": float64(g.Intn(90)), "lon": val(g)}},
+			[]interface{}{val(g), []interface{}{map[string]interface{}{"deep": val(g)}}},
+		}
+	}
 	return f
 }
 
